@@ -657,10 +657,29 @@ def restoreProgVars : Storage → List (Nat × Nat × Val) → Storage
     | some (.inst id) => restoreProgVars (s.setInstVar id var v) rest
     | _ => restoreProgVars s rest
 
+/-- `register_task`: `TaskState::new(now)` with `last_single` seeded from the SINGLE global. -/
+def registerTaskState (s : Storage) (now : Int) (single : Option Nat) : TaskState :=
+  { lastSingle :=
+      match single with
+      | some n =>
+        match s.getGlobal n with
+        | some (.num 1 v) => decide (v ≠ 0)
+        | _ => false
+      | none => false,
+    lastRun := now, overruns := 0 }
+
 /-- `TaskState::new(current_time)`. -/
 def newTaskState (now : Int) : TaskState := { lastSingle := false, lastRun := now, overruns := 0 }
 
-/-- `Runtime::restart`. -/
+/-- `io.inputs_mut().fill(0)` etc.: a cold restart zeroes the three process images (their
+lengths stay). -/
+def Io.zeroImages (io : Io) : Io :=
+  { io with inputs := io.inputs.map (fun _ => 0), outputs := io.outputs.map (fun _ => 0),
+            memory := io.memory.map (fun _ => 0) }
+
+/-- `Runtime::restart`.  After the five loops: frames cleared, clock zero, every task's state
+re-seeded exactly as `register_task` does (from the re-initialised SINGLE global), on `Cold` the
+process images zeroed, fault latch cleared, cycle counter zero. -/
 def restart (mode : Mode) (rt : Runtime) : Except Err Runtime :=
   let warm := mode.isWarm
   let retained := if warm then collectRetained rt.storage rt.globalsMeta [] else []
@@ -675,7 +694,8 @@ def restart (mode : Mode) (rt : Runtime) : Except Err Runtime :=
       .ok { rt with
         storage := { s3 with frames := 0 },
         time := 0,
-        taskState := rt.taskState.map (fun _ => newTaskState 0),
+        taskState := rt.tasks.map (fun t => registerTaskState s3 0 t.single),
+        io := if warm then rt.io else rt.io.zeroImages,
         fault := none,
         cycleCounter := 0 }
 
@@ -1169,17 +1189,6 @@ def fbTaskRefs (s : Storage) (ps : List ProgDecl) (task : Nat) : List Ref :=
   ps.flatMap fun p =>
     p.fbTasks.filterMap fun (v, t) =>
       if t = task then resolveAccess s { scope := .p p.name, name := v } else none
-
-/-- `register_task`: `TaskState::new(now)` with `last_single` seeded from the SINGLE global. -/
-def registerTaskState (s : Storage) (now : Int) (single : Option Nat) : TaskState :=
-  { lastSingle :=
-      match single with
-      | some n =>
-        match s.getGlobal n with
-        | some (.num 1 v) => decide (v ≠ 0)
-        | _ => false
-      | none => false,
-    lastRun := now, overruns := 0 }
 
 /-- `build_runtime_from_source_files` from `apply_globals` on.  `none` = compile error. -/
 def build (src : Source) : Option Runtime :=
